@@ -32,7 +32,7 @@ THEOREMS = [
     "C04.no_choices_from_partial_subscript", "C04.action_required_characterised", "C04.action_required_partial",
     "C04.not_required_full_default", "C04.not_required_full_bool", "C04.choices_accept_legal", "C04.not_choices_accept_full",
     "C04.accepts_iff_legal_partial", "C04.not_accepts_full_union", "C04.parse_empty_semantics", "C04.parse_empty_described_partial",
-    "C04.not_parse_empty_full", "C04.falsy_defaults_kept",
+    "C04.not_parse_empty_full", "C04.falsy_defaults_kept", "C04.pep604_str_default_kept",
 ]
 NoneStr = "```(None)```"
 STYLES = ("rest", "google", "numpydoc")
@@ -45,7 +45,7 @@ DOCS = ["the alpha thing", "dataset name", "learning rate used", "a thing", "som
 MEMBERS = ["alpha", "beta", "gamma", "delta", "eps", "np", "tf", "a b"]
 INTS = [0, 1, 5, -3, 42, 100]
 FLOATS = [0.0, 0.5, 1.0, -2.5, 0.001, 3.14]
-STRS = ["", "mnist", "foo", "bar baz", "a_b", "~/data", "5", "''"]  # "''" (two quote characters) is the longest string set_value must leave alone
+STRS = ["", "mnist", "foo", "bar baz", "a_b", "~/data", "5", "''", "auto", "first batch", "it's", 'say "hi" twice']  # "''" (two quote characters) is the longest string set_value must leave alone
 ODD_STRS = ["None", "'q'", '"dq"']  # rare: trigger the quote-stripping of set_value / the none_types test of function emit
 
 
@@ -101,16 +101,59 @@ def scalar_default(r, s):
 def gen_ddefault(r, dt):
     """a legal default of the type (None = no default)"""
     k = dt["k"]
-    if k in ("list", "tupleEllipsis", "callableEllipsis") or r.random() < 0.4:
+    if k in ("list", "tupleEllipsis", "callableEllipsis", "dict") or r.random() < 0.4:
         return None
-    if k in ("optional", "optLiteral") and r.random() < 0.45:
+    if k in OPTIONALS and (k == "optList" or r.random() < 0.45):
         return {"k": "none"}
     if k in ("scalar", "optional", "annotated"):
         return scalar_default(r, dt["s"])
-    if k == "union":
+    if k in UNIONS:
         return scalar_default(r, r.choice(dt["members"]))
     m = r.choice(dt["members"])
-    return {"k": "str", "v": m["v"]} if m["k"] == "s" else {"k": "int", "v": m["v"]}
+    return {"k": {"s": "str", "i": "int", "b": "bool"}[m["k"]], "v": m["v"]}
+
+
+def gen_xtyp(r):
+    """a type of the widened grammar in one of today's spellings (PEP 604 / 585, dotted typing, forward reference, nested Optional[Union],
+    Literal with int/str/bool members)"""
+    k = r.choice(["optional", "optional", "optional", "union", "union", "list", "optList", "optUnion", "dict", "tupleEllipsis", "literal", "optLiteral",
+                  "annotated", "scalar", "callableEllipsis"])
+    if k in ("scalar", "optional", "list", "optList", "tupleEllipsis", "callableEllipsis"):
+        dt = {"k": k, "s": r.choice(SCALARS)}
+        if k in ("optional", "optList") and r.random() < 0.6:
+            dt["s"] = "str"
+    elif k in UNIONS:
+        ms = r.sample(SCALARS, r.randint(2, 3))
+        if "str" not in ms and r.random() < 0.6:
+            ms[r.randrange(len(ms))] = "str"
+        dt = {"k": k, "members": ms}
+    elif k in LITERALS:
+        ms = gen_members(r)
+        if r.random() < 0.35 and len(ms) > 1:
+            ms[r.randrange(len(ms))] = {"k": "b", "v": r.choice([True, False])}
+        dt = {"k": k, "members": ms}
+    elif k == "annotated":
+        dt = {"k": k, "s": r.choice(SCALARS), "note": r.choice(["seconds", "unit: m", "x"])}
+    else:
+        dt = {"k": "dict"}
+    sp = spells_for(k)
+    # nested Optional[Union[...]] and bool Literal members are new even in the typing spelling
+    if k in ("optUnion", "optList") or (k in LITERALS and any(m["k"] == "b" for m in dt["members"])):
+        sp = sp + ["typing"]
+    dt["spell"] = r.choice(sp)
+    return dt
+
+
+def gen_xdir(r):
+    n = r.randint(1, 4)
+    params = []
+    for nm in r.sample(NAMES, n):
+        dt = gen_xtyp(r) if r.random() < 0.85 else gen_dtyp(r)
+        params.append({"name": nm, "typ": dt, "doc": r.choice(DOCS), "default": gen_ddefault(r, dt)})
+    ret = None
+    if r.random() < 0.3:
+        ret = {"typ": gen_xtyp(r), "doc": r.choice([d for d in DOCS if d])}
+    return {"name": r.choice(["F", "Config", "train_model"]), "doc": r.choice(["Summary line.", "Do it", ""]), "params": params, "returns": ret}
 
 
 def gen_dir(r, nparams=None, sparse=None):
@@ -138,32 +181,67 @@ def render_litm(m):
     return repr(m["v"])
 
 
-def render_typ(dt):
+SCALARLIKE = ("scalar", "optional", "list", "annotated", "optList")  # the command-line reading is one scalar conversion
+UNIONS = ("union", "optUnion")
+LITERALS = ("literal", "optLiteral")
+OPTIONALS = ("optional", "optLiteral", "optList", "optUnion")
+NO_CLI = ("tupleEllipsis", "callableEllipsis", "dict")
+LEAN_KINDS = ("scalar", "optional", "union", "list", "literal", "optLiteral", "annotated", "tupleEllipsis", "callableEllipsis")
+SPELLS = ("typing", "pep604", "pep585", "dotted-typing", "dotted-t", "fwdref")
+
+
+def spells_for(k):
+    """the spellings in which a type of kind `k` can be written differently from the `typing` one"""
+    out = ["fwdref"]
+    if k in ("optional", "union", "optLiteral", "optList", "optUnion"):
+        out.append("pep604")
+    if k in ("list", "tupleEllipsis", "dict", "optList"):
+        out.append("pep585")
+    if k != "scalar":
+        out += ["dotted-typing", "dotted-t"]
+    return out
+
+
+def render_typ(dt, spell=None):
+    """the type string as people write it: `typing` names (the theorems' domain), PEP 604 `X | None`, PEP 585 `list[int]`,
+    dotted `typing.Optional[...]` / `t.Optional[...]`, or a string (forward-reference) annotation"""
+    spell = dt.get("spell", "typing") if spell is None else spell
+    if spell == "fwdref":
+        return repr(render_typ(dt, "typing"))
     k = dt["k"]
+    pre = {"dotted-typing": "typing.", "dotted-t": "t."}.get(spell, "")
+    lit = lambda: "%sLiteral[%s]" % (pre, ", ".join(map(render_litm, dt["members"])))  # noqa: E731
+    lst = lambda: ("list[%s]" if spell in ("pep585", "pep604") else pre + "List[%s]") % dt["s"]  # noqa: E731
     if k == "scalar":
         return dt["s"]
     if k == "optional":
-        return "Optional[%s]" % dt["s"]
+        return "%s | None" % dt["s"] if spell == "pep604" else "%sOptional[%s]" % (pre, dt["s"])
     if k == "union":
-        return "Union[%s]" % ", ".join(dt["members"])
+        return " | ".join(dt["members"]) if spell == "pep604" else "%sUnion[%s]" % (pre, ", ".join(dt["members"]))
     if k == "list":
-        return "List[%s]" % dt["s"]
+        return lst()
     if k == "literal":
-        return "Literal[%s]" % ", ".join(map(render_litm, dt["members"]))
+        return lit()
     if k == "optLiteral":
-        return "Optional[Literal[%s]]" % ", ".join(map(render_litm, dt["members"]))
+        return "%s | None" % lit() if spell == "pep604" else "%sOptional[%s]" % (pre, lit())
     if k == "annotated":
-        return "Annotated[%s, %r]" % (dt["s"], dt["note"])
+        return "%sAnnotated[%s, %r]" % (pre, dt["s"], dt["note"])
     if k == "tupleEllipsis":
-        return "Tuple[%s, ...]" % dt["s"]
+        return ("tuple[%s, ...]" if spell == "pep585" else pre + "Tuple[%s, ...]") % dt["s"]
     if k == "callableEllipsis":
-        return "Callable[..., %s]" % dt["s"]
+        return "%sCallable[..., %s]" % (pre, dt["s"])
+    if k == "optList":
+        return "%s | None" % lst() if spell == "pep604" else "%sOptional[%s]" % (pre, lst())
+    if k == "optUnion":
+        return " | ".join(dt["members"] + ["None"]) if spell == "pep604" else "%sOptional[%sUnion[%s]]" % (pre, pre, ", ".join(dt["members"]))
+    if k == "dict":
+        return "dict[str, int]" if spell == "pep585" else pre + "Dict[str, int]"
     raise ValueError(k)
 
 
 def typ_class(dt):
     k = dt["k"]
-    if k in ("literal", "optLiteral"):
+    if k in LITERALS:
         ms = dt["members"]
         pre = "literal"  # Optional[Literal[…]] shares the class (the signature carries `optional` separately where it matters)
         if len(ms) == 1:
@@ -173,7 +251,22 @@ def typ_class(dt):
         return pre + "-nonstr"
     if k in ("scalar", "optional", "list", "annotated"):
         return "%s-%s" % (k, dt["s"])
-    return {"union": "union", "tupleEllipsis": "tuple", "callableEllipsis": "callable"}[k]
+    if k == "optList":
+        return "optlist-%s" % dt["s"]
+    return {"union": "union", "optUnion": "optunion", "tupleEllipsis": "tuple", "callableEllipsis": "callable", "dict": "dict"}[k]
+
+
+def sig_spell(dt):
+    """the spelling as it appears in failure signatures (`typing.` and `t.` prefixes are one region)"""
+    sp = dt.get("spell", "typing")
+    return "dotted" if sp.startswith("dotted") else sp
+
+
+def lean_describable(d):
+    """the description is inside EmitIface.DIR as written (typing spellings, kinds of DTyp, no bool Literal member)"""
+    ts = [p["typ"] for p in d["params"]] + ([d["returns"]["typ"]] if d["returns"] else [])
+    return all(t.get("spell", "typing") == "typing" and t["k"] in LEAN_KINDS and not any(m["k"] == "b" for m in t.get("members", []) if isinstance(m, dict))
+               for t in ts)
 
 
 def dd_py(dd):
@@ -242,6 +335,8 @@ def texpr(node):
         return {"k": "attr", "value": texpr(node.value), "attr": node.attr}
     if isinstance(node, ast.List):
         return {"k": "list", "elts": [texpr(e) for e in node.elts]}
+    if isinstance(node, ast.BinOp) and isinstance(node.op, ast.BitOr):
+        return {"k": "binop", "left": texpr(node.left), "right": texpr(node.right)}
     return {"k": "other", "src": ast.unparse(node)}
 
 
@@ -347,6 +442,7 @@ def _scratch_ns():
     import typing
 
     ns = {k: getattr(typing, k) for k in typing.__all__}
+    ns["typing"] = ns["t"] = typing  # dotted spellings `typing.Optional[...]` / `t.Optional[...]`
     ns["BaseModel"] = type("BaseModel", (), {})  # pydantic-shaped classes only need a base to inherit from
     ns["__name__"] = "emitted"
     return ns
@@ -543,11 +639,11 @@ ILLEGAL = ["abc", "2.5", "zzz", "99"]
 
 def probe_texts(dt):
     k = dt["k"]
-    if k in ("tupleEllipsis", "callableEllipsis"):
+    if k in NO_CLI:
         return []
-    if k in ("scalar", "optional", "list", "annotated"):
+    if k in SCALARLIKE:
         out = list(SC_TEXTS[dt["s"]])
-    elif k == "union":
+    elif k in UNIONS:
         out = [t for s in dt["members"] for t in SC_TEXTS[s]]
     else:
         out = [str(m["v"]) for m in dt["members"]]
@@ -706,13 +802,13 @@ def oracle(chk, case, obs, desc, fail):
         for k, same in obs["ann_is_described"].items():
             if same is not True:
                 dt = next((p["typ"] for p in params if p["name"] == k), (d["returns"] or {}).get("typ"))
-                fail(dict(base, field="annotation", kind="object-differs", typ_class=typ_class(dt) if dt else "?"), "annotation of %s is not the described type (%s)" % (k, same))
+                fail(dict(base, field="annotation", kind="object-differs", typ_class=typ_class(dt) if dt else "?", spell=sig_spell(dt) if dt else "?"), "annotation of %s is not the described type (%s)" % (k, same))
         exp_vals = {k: v["c"] for k, v in desc["class"]["values"]}
         got_vals = dict((k, v) for k, v in obs["values"])
         for p in params:
             e, g = exp_vals.get(p["name"]), got_vals.get(p["name"])
             if e != g:
-                fail(dict(base, field="default", kind=default_kind(e, g), typ_class=typ_class(p["typ"])), "class attribute %s: described %s, found %s" % (p["name"], e, g))
+                fail(dict(base, field="default", kind=default_kind(e, g), typ_class=typ_class(p["typ"]), spell=sig_spell(p["typ"])), "class attribute %s: described %s, found %s" % (p["name"], e, g))
         extra = [k for k in got_vals if k not in {p["name"] for p in params}]
         if extra:
             fail(dict(base, field="default", kind="undescribed-value", typ_class="return" if extra == ["return_type"] else "?"), "undescribed class attributes %s" % extra)
@@ -728,15 +824,16 @@ def oracle(chk, case, obs, desc, fail):
         by_name = {p["name"]: p for p in params}
         for e, g in zip(exp, got):
             tc = typ_class(by_name[e["name"]]["typ"]) if e["name"] in by_name else "receiver"
+            sp = sig_spell(by_name[e["name"]]["typ"]) if e["name"] in by_name else "typing"
             if e["kind"] != g["kind"]:
                 fail(dict(base, field="kind", kind="differs"), "%s is %s, described %s" % (e["name"], g["kind"], e["kind"]))
             ed = None if e["default"] is None else e["default"]["c"]
             if ed != g["default"]:
-                fail(dict(base, field="default", kind=default_kind(ed, g["default"]), typ_class=tc), "default of %s: described %s, signature shows %s" % (e["name"], ed, g["default"]))
+                fail(dict(base, field="default", kind=default_kind(ed, g["default"]), typ_class=tc, spell=sp), "default of %s: described %s, signature shows %s" % (e["name"], ed, g["default"]))
             if (e["ann"] is not None) != g["has_ann"]:
                 fail(dict(base, field="annotation", kind="presence"), "annotation presence of %s" % e["name"])
             elif g["has_ann"] and g["ann_is_described"] is not True:
-                fail(dict(base, field="annotation", kind="object-differs", typ_class=tc), "annotation of %s is not the described type" % e["name"])
+                fail(dict(base, field="annotation", kind="object-differs", typ_class=tc, spell=sp), "annotation of %s is not the described type" % e["name"])
         if (desc["sig"]["returns"] is not None) != obs["has_return_ann"]:
             fail(dict(base, field="return-annotation", kind="presence"), "return annotation presence")
         elif obs["has_return_ann"] and obs.get("return_is_described") is not True:
@@ -752,17 +849,18 @@ def oracle(chk, case, obs, desc, fail):
     req_kinds = []
     for k, (e, g, p) in enumerate(zip(exp, got, params)):
         tc = typ_class(p["typ"])
+        sp = sig_spell(p["typ"])
         conv = g["type"] or "str"
         gd = None if g["default"] == {"k": "none"} else g["default"]
         if e["default"] != gd:
-            fail(dict(base, field="default", kind=default_kind(e["default"], gd), typ_class=tc), "default of --%s: described %s, action has %s" % (p["name"], e["default"], gd))
+            fail(dict(base, field="default", kind=default_kind(e["default"], gd), typ_class=tc, spell=sp), "default of --%s: described %s, action has %s" % (p["name"], e["default"], gd))
         if e["required"] != g["required"]:
             if g["required"]:
                 kind = "required-despite-default" if p["default"] is not None else "required-though-optional"
             else:
                 kind = "not-required-without-default"
-            req_kinds.append((kind, conv))
-            fail(dict(base, field="required", kind=kind, conv=conv), "--%s (%s, default %s): required=%s, described %s" % (p["name"], render_typ(p["typ"]), p["default"], g["required"], e["required"]))
+            req_kinds.append((kind, conv, sp))
+            fail(dict(base, field="required", kind=kind, conv=conv, typ_class=tc, spell=sp), "--%s (%s, default %s): required=%s, described %s" % (p["name"], render_typ(p["typ"]), p["default"], g["required"], e["required"]))
         if e["choices"] != g["choices"]:
             if g["choices"] is None:
                 kind = "missing"
@@ -772,49 +870,51 @@ def oracle(chk, case, obs, desc, fail):
                 kind = "quote-wrapped-str-stripped"
             else:
                 kind = "differs"
-            fail(dict(base, field="choices", kind=kind, typ_class=tc), "choices of --%s (%s): %s, described %s" % (p["name"], render_typ(p["typ"]), g["choices"], e["choices"]))
+            fail(dict(base, field="choices", kind=kind, typ_class=tc, spell=sp), "choices of --%s (%s): %s, described %s" % (p["name"], render_typ(p["typ"]), g["choices"], e["choices"]))
         if nows(e["help"]) != nows(g["help"]):
             fail(dict(base, field="help", kind="differs"), "help of --%s: %r, described %r" % (p["name"], g["help"], e["help"]))
         if e["append"] != (g["cls"] == "_AppendAction") or g["cls"] not in ("_StoreAction", "_AppendAction") or g["nargs"] is not None:
-            fail(dict(base, field="action", kind="differs", typ_class=tc), "--%s is a %s (nargs=%s)" % (p["name"], g["cls"], g["nargs"]))
+            fail(dict(base, field="action", kind="differs", typ_class=tc, spell=sp), "--%s is a %s (nargs=%s)" % (p["name"], g["cls"], g["nargs"]))
         # type conversion: the scalar converter, where the description names one
-        want_conv = p["typ"].get("s") if p["typ"]["k"] in ("scalar", "optional", "list", "annotated") else None
+        want_conv = p["typ"].get("s") if p["typ"]["k"] in SCALARLIKE else None
         if want_conv is not None and conv != want_conv:
-            fail(dict(base, field="type", kind="converter-differs", typ_class=tc), "--%s (%s): type=%s" % (p["name"], render_typ(p["typ"]), g["type"]))
+            fail(dict(base, field="type", kind="converter-differs", typ_class=tc, spell=sp), "--%s (%s): type=%s" % (p["name"], render_typ(p["typ"]), g["type"]))
     # acceptance of legal / rejection of illegal command-line strings
     for (idx, text), legal, pr in zip(case["probes"], desc["legal"], obs["probes"]):
         p = params[idx]
         tc = typ_class(p["typ"])
-        has_q = p["typ"]["k"] in ("literal", "optLiteral") and any(_quote_wrapped(m["v"]) for m in p["typ"]["members"])
+        sp = sig_spell(p["typ"])
+        has_q = p["typ"]["k"] in LITERALS and any(_quote_wrapped(m["v"]) for m in p["typ"]["members"])
+        has_b = p["typ"]["k"] in LITERALS and any(m["k"] == "b" for m in p["typ"]["members"])
         if legal and "ok" not in pr:
-            fail(dict(base, field="accepts", kind="legal-value-rejected", typ_class=tc, quote_wrapped_member=has_q),
+            fail(dict(base, field="accepts", kind="legal-value-rejected", typ_class=tc, spell=sp, quote_wrapped_member=has_q, bool_member=has_b),
                  "--%s (%s): legal value %r is rejected (%s)" % (p["name"], render_typ(p["typ"]), text, pr.get("msg") or pr.get("error")))
         elif not legal and "ok" in pr:
-            fail(dict(base, field="accepts", kind="illegal-value-accepted", typ_class=tc, quote_wrapped_member=has_q),
+            fail(dict(base, field="accepts", kind="illegal-value-accepted", typ_class=tc, spell=sp, quote_wrapped_member=has_q, bool_member=has_b),
                  "--%s (%s): illegal value %r is accepted as %s" % (p["name"], render_typ(p["typ"]), text, pr["ok"]))
         elif legal:
             v = pr["ok"]
             want = {"int": ("int",), "float": ("float",), "bool": ("bool",), "str": ("str",)}
             k = p["typ"]["k"]
-            kinds = want[p["typ"]["s"]] if k in ("scalar", "optional", "list", "annotated") else (
-                tuple(x for s in p["typ"]["members"] for x in want[s]) if k == "union" else ("str", "int"))
+            kinds = want[p["typ"]["s"]] if k in SCALARLIKE else (
+                tuple(x for s in p["typ"]["members"] for x in want[s]) if k in UNIONS else ("str", "int", "bool"))
             ok = v["k"] in kinds
-            if ok and k in ("scalar", "optional", "list", "annotated") and p["typ"]["s"] in ("int", "str"):
+            if ok and k in SCALARLIKE and p["typ"]["s"] in ("int", "str"):
                 ok = str(v["v"]) == text
-            if ok and k in ("literal", "optLiteral"):
-                ok = any(m["v"] == v["v"] and (m["k"] == "s") == (v["k"] == "str") for m in p["typ"]["members"])
+            if ok and k in LITERALS:
+                ok = any(m["v"] == v["v"] and {"s": "str", "i": "int", "b": "bool"}[m["k"]] == v["k"] for m in p["typ"]["members"])
             if not ok:
-                fail(dict(base, field="accepts", kind="wrong-typed-value", typ_class=tc), "--%s (%s): %r is converted to %s" % (p["name"], render_typ(p["typ"]), text, v))
+                fail(dict(base, field="accepts", kind="wrong-typed-value", typ_class=tc, spell=sp, bool_member=has_b), "--%s (%s): %r is converted to %s" % (p["name"], render_typ(p["typ"]), text, v))
     # parse_args([])
     pe, ge = desc["parse_empty"], obs["parses"][0]
     if "error" in ge and ge["error"] != "exit":
         fail(dict(base, field="parse_args_empty", kind="raises", error=ge["error"]), "parse_args([]) raised %s" % ge)
     elif "ok" in pe and "error" in ge:
-        ks = [k for k, _ in req_kinds if k.startswith("required-")]
+        ks = [k for k, _, _ in req_kinds if k.startswith("required-")]
         kind = "required-despite-default" if "required-despite-default" in ks else (ks[0] if ks else "exits")
         fail(dict(base, field="parse_args_empty", kind=kind), "parse_args([]) exits (%s) although every parameter has a described fallback" % ge.get("msg"))
     elif "error" in pe and "ok" in ge:
-        cs = sorted({c for k, c in req_kinds if k == "not-required-without-default"})
+        cs = sorted({c for k, c, _ in req_kinds if k == "not-required-without-default"})
         kind = "not-required-without-default" if cs else "no-exit"
         fail(dict(base, field="parse_args_empty", kind=kind, conv=",".join(cs)), "parse_args([]) succeeds although a parameter without default must be supplied")
     elif "ok" in pe:
@@ -961,10 +1061,10 @@ def evaluate(chk, cases, obs_list, models, descs, stats):
                         chk.disagreement("C04 correspondence 2: semantics (%s)" % ("class" if emitter == "pydantic" else emitter), case, diff, None)
         # ---- the property's oracle ----
         if in_dom and desc is not None:
-            if not desc.get("wf"):
+            if case.get("lean") and not desc.get("wf"):
                 stats["not_wf"] = stats.get("not_wf", 0) + 1
             # description ↔ IR: the Lean `toIR` of the description is the IR the real emitter was given
-            if json.dumps(desc["ir"], sort_keys=True) != json.dumps(_strip_ev(ir_json(case["ir"])), sort_keys=True):
+            if case.get("lean") and json.dumps(desc["ir"], sort_keys=True) != json.dumps(_strip_ev(ir_json(case["ir"])), sort_keys=True):
                 n_desc += 1
                 chk.disagreement("C04 description ↔ IR (DTyp.toExpr = ast.parse of the rendered type)", case, ir_json(case["ir"]), desc["ir"])
 
@@ -1001,6 +1101,71 @@ def make_domain_cases(r, d, emitters=EMITTERS, styles=STYLES, func_both=False):
     return cases
 
 
+# ----------------------------------------------------------------------------------------------
+# the described interface, computed in Python (same JSON shape as the driver op `c04.describe`).  On every description inside
+# EmitIface.DIR it is compared with the Lean `describe…` (obligation "py_describe = Lean describe"); it is the oracle's expectation for the
+# widened spellings / kinds that DTyp does not have (PEP 604 / 585, dotted, forward references, Optional[Union], list | None, dict, bool members)
+# ----------------------------------------------------------------------------------------------
+import re
+
+_INT_RE, _FLOAT_RE = re.compile(r"-?[0-9]+\Z"), re.compile(r"-?[0-9]+\.[0-9]+\Z")
+
+
+def dd_const(dd):
+    return {"k": "none"} if dd["k"] == "none" else {"k": dd["k"], "v": dd["v"]}
+
+
+def litm_const(m):
+    return {"k": {"s": "str", "i": "int", "b": "bool"}[m["k"]], "v": m["v"]}
+
+
+def legal_text(dt, text):
+    def sc(s):
+        return {"int": bool(_INT_RE.match(text)), "float": bool(_INT_RE.match(text) or _FLOAT_RE.match(text)), "bool": True, "str": True}[s]
+
+    k = dt["k"]
+    if k in NO_CLI:
+        return False
+    if k in SCALARLIKE:
+        return sc(dt["s"])
+    if k in UNIONS:
+        return any(sc(x) for x in dt["members"])
+    return any((m["k"] == "s" and text == m["v"]) or (m["k"] == "i" and _INT_RE.match(text) and int(text) == m["v"]) or (m["k"] == "b" and text == str(m["v"]))
+               for m in dt["members"])
+
+
+def py_describe(d, cfg, probes):
+    fc = func_cfg(cfg)
+    ann = lambda dt: typ_json(render_typ(dt))  # noqa: E731
+    val = lambda p: None if p["default"] is None else {"k": "const", "c": dd_const(p["default"])}  # noqa: E731
+    first = [] if fc["functionType"] in (None, "static") else [{"name": fc["functionType"], "kind": "positional", "ann": None, "default": None}]
+    acts = []
+    for p in d["params"]:
+        k = p["typ"]["k"]
+        acts.append({"dest": p["name"], "required": p["default"] is None and k not in OPTIONALS,
+                     "default": None if p["default"] is None or p["default"]["k"] == "none" else dd_const(p["default"]),
+                     "choices": [litm_const(m) for m in p["typ"]["members"]] if k in LITERALS else None,
+                     "help": p["doc"] or None, "cli": k not in NO_CLI, "append": k in ("list", "optList")})
+    if any(a["required"] for a in acts):
+        pe = {"error": "exit: required"}
+    else:
+        pe = {"ok": [[a["dest"], {"one": a["default"] or {"k": "none"}}] for a in acts]}
+    return {"wf": None,
+            "class": {"annotations": [[p["name"], ann(p["typ"])] for p in d["params"]] + ([["return_type", ann(d["returns"]["typ"])]] if d["returns"] else []),
+                      "values": [[p["name"], val(p)] for p in d["params"] if p["default"] is not None]},
+            "sig": {"params": first + [{"name": p["name"], "kind": "kwonly" if fc["kwOnly"] else "positional",
+                                        "ann": ann(p["typ"]) if fc["typeAnnotations"] else None, "default": val(p)} for p in d["params"]],
+                    "returns": ann(d["returns"]["typ"]) if (fc["typeAnnotations"] and d["returns"]) else None},
+            "actions": acts, "parse_empty": pe, "legal": [legal_text(d["params"][i]["typ"], t) for i, t in probes]}
+
+
+def describe_diff(py, lean):
+    for key in ("class", "sig", "actions", "parse_empty", "legal"):
+        if json.dumps(py[key], sort_keys=True) != json.dumps(lean[key], sort_keys=True):
+            return {"field": key, "py": py[key], "lean": lean[key]}
+    return None
+
+
 def describe_request(case):
     return {"op": "c04.describe", "ir": case["dir"], "cfg": func_cfg(case["cfg"]), "probes": case["probes"]}
 
@@ -1008,22 +1173,33 @@ def describe_request(case):
 def run_batch(chk, cases, stats):
     descs = [None] * len(cases)
     dom = [k for k, c in enumerate(cases) if c.get("dir") is not None]
-    if dom:
-        outs = core.model_batch([describe_request(cases[k]) for k in dom])
-        for k, o in zip(dom, outs):
+    lean = [k for k in dom if cases[k].setdefault("lean", lean_describable(cases[k]["dir"]))]
+    if lean:
+        outs = core.model_batch([describe_request(cases[k]) for k in lean])
+        for k, o in zip(lean, outs):
             if "error" in o:
                 raise core.HarnessError("c04.describe failed: %s on %s" % (o, json.dumps(cases[k]["dir"])[:300]))
             descs[k] = o
-            c = cases[k]
-            if c["emitter"] == "argparse":
-                # second argv: one legal value per option (legality from the spec)
-                legal_of = {}
-                for (idx, t), lg in zip(c["probes"], o["legal"]):
-                    if lg:
-                        legal_of.setdefault(idx, []).append(t)
-                av = legal_argv(chk.rng, c["dir"], legal_of)
-                if av is not None and c["dir"]["params"]:
-                    c["argvs"] = [[], av]
+    for k in dom:
+        c = cases[k]
+        pd = py_describe(c["dir"], c["cfg"], c["probes"])
+        if descs[k] is None:
+            descs[k] = pd  # outside DTyp: the Python description is the expectation
+        else:
+            stats["py_describe_checked"] = stats.get("py_describe_checked", 0) + 1
+            df = describe_diff(pd, descs[k])
+            if df is not None:
+                stats["py_describe_differs"] = stats.get("py_describe_differs", 0) + 1
+                stats.setdefault("py_describe_first_diff", json.dumps({"dir": c["dir"], "diff": df})[:1500])
+        if c["emitter"] == "argparse":
+            # second argv: one legal value per option (legality from the spec)
+            legal_of = {}
+            for (idx, t), lg in zip(c["probes"], descs[k]["legal"]):
+                if lg:
+                    legal_of.setdefault(idx, []).append(t)
+            av = legal_argv(chk.rng, c["dir"], legal_of)
+            if av is not None and c["dir"]["params"]:
+                c["argvs"] = [[], av]
     obs = core.guarded_map(run_case, cases, per_item_timeout=20.0)
     for c, o in zip(cases, obs):
         if c.get("dir") is not None and c["emitter"] == "argparse" and len(c["argvs"]) > 1 and o and "probes" in o:
@@ -1112,8 +1288,25 @@ def run(chk: core.Check) -> int:
         n_sparse_cases += len(cs)
         cases += cs
     stats["sparse_doc_programs"] = n_sparse_cases
+    # the spellings people write today: PEP 604 `X | None`, PEP 585 `list[int]`, dotted `typing.Optional[...]` / `t.…`, string (forward-reference)
+    # annotations, nested Optional[Union[...]], `list[str] | None`, `dict[str, int]`, Literal with int / str / bool members — with defaults of every kind
+    n_modern = 100 if chk.quick else 2500
+    n_modern_cases = 0
+    spells: dict = {}
+    for d in [gen_xdir(rng) for _ in range(n_modern)] + XCORNERS:
+        for p in d["params"]:
+            key = "%s/%s" % (p["typ"].get("spell", "typing"), p["typ"]["k"])
+            spells[key] = spells.get(key, 0) + 1
+        cs = make_domain_cases(rng, d)
+        n_modern_cases += len(cs)
+        cases += cs
+    stats["modern_spelling_programs"] = n_modern_cases
+    chk.coverage["spellings"] = dict(sorted(spells.items()))
     obs, models, descs = run_batch(chk, cases, stats)
     n_ast, n_sem, n_desc = evaluate(chk, cases, obs, models, descs, stats)
+    chk.oblige("the Python description (py_describe: expectation for the widened spellings) = EmitIface.describe… on all %d programs whose description is inside DIR"
+               % stats.get("py_describe_checked", 0), "correspondence", stats.get("py_describe_differs", 0) == 0 and stats.get("py_describe_checked", 0) > 0,
+               stats.get("py_describe_first_diff", ""))
     for c, o, ds in zip(cases, obs, descs):
         nontrivial = bool(ds and ds.get("wf")) and any(p["default"] is not None for p in c["dir"]["params"])
         chk.count((c["emitter"], json.dumps(c["dir"], sort_keys=True), json.dumps(c["cfg"], sort_keys=True)), nontrivial)
@@ -1150,9 +1343,10 @@ def run(chk: core.Check) -> int:
     return chk.finish("domain: %d generated interface descriptions (0-5 parameters; scalars, Optional, Union, List, Literal[str...], Literal single / with int members, "
                       "Optional[Literal], Annotated[T, 'note'], Tuple[T, ...], Callable[..., T]; literal defaults incl. 0 / 0.0 / False / '' / None) + %d corner "
                       "interfaces + %d sparsely/un-documented interfaces (no interface doc, parameter docs with probability 0 / 0.5, function with and "
-                      "without type annotations), each x {class, pydantic, function, argparse} x {rest, google, numpydoc} with random flags; non-trivial = well-formed per EmitIface.DIR.WF (the theorems' domain) and has a parameter with a default; "
+                      "without type annotations) + %d interfaces in today's spellings (PEP 604 / 585, dotted typing, forward references, Optional[Union], "
+                      "list | None, dict, Literal with bool members), each x {class, pydantic, function, argparse} x {rest, google, numpydoc} with random flags; non-trivial = well-formed per EmitIface.DIR.WF (the theorems' domain) and has a parameter with a default; "
                       "wide stream: %d IRs outside the domain (dict, nested, absent type, code-quoted defaults, *kwargs names) x 3 emitters, model-vs-code only"
-                      % (n_dom, len(CORNERS), n_sparse + len(SPARSE_CORNERS), n_wide))
+                      % (n_dom, len(CORNERS), n_sparse + len(SPARSE_CORNERS), n_modern + len(XCORNERS), n_wide))
 
 
 def _p(name, typ, default=None, doc="the thing"):
@@ -1202,6 +1396,43 @@ SPARSE_CORNERS = [
         dict(_p("retries", {"k": "scalar", "s": "int"}, doc=""), nodoc=True)]},
     {"name": "configure", "doc": "", "returns": None, "params": []},
     {"name": "configure", "doc": "", "returns": {"typ": {"k": "optional", "s": "float"}, "doc": "", "nodoc": True}, "params": []},
+]
+
+
+def _x(k, spell, **kw):
+    return dict({"k": k, "spell": spell}, **kw)
+
+
+# widened spellings, every seed: the two interfaces of the `needs_quoting` regression (a str-containing PEP 604 union with a string default) first
+XCORNERS = [
+    {"name": "Config", "doc": "Summary.", "returns": None, "params": [
+        _p("mode", _x("optional", "pep604", s="str"), {"k": "str", "v": "auto"}),
+        _p("label", _x("union", "pep604", members=["int", "str"]), {"k": "str", "v": "first batch"}),
+        _p("tags", _x("optList", "pep604", s="str"), {"k": "none"}),
+        _p("quoted", _x("optional", "pep604", s="str"), {"k": "str", "v": "it's"}),
+        _p("empty", _x("union", "pep604", members=["str", "float"]), {"k": "str", "v": ""})]},
+    {"name": "Config", "doc": "", "returns": None, "params": [
+        _p("a", _x("optional", "dotted-typing", s="int"), {"k": "int", "v": 0}), _p("b", _x("optional", "dotted-t", s="str"), {"k": "str", "v": "bar baz"}),
+        _p("c", _x("scalar", "fwdref", s="int"), {"k": "int", "v": 5}), _p("d", _x("optional", "fwdref", s="str"), {"k": "str", "v": "foo"}),
+        _p("e", _x("optUnion", "typing", members=["int", "float"]), {"k": "float", "v": "0.0"})]},
+    {"name": "Config", "doc": "Summary.", "returns": {"typ": _x("list", "pep585", s="int"), "doc": "the result"}, "params": [
+        _p("a", _x("list", "pep585", s="int")), _p("b", _x("dict", "pep585")), _p("c", _x("tupleEllipsis", "pep585", s="int")),
+        _p("d", _x("literal", "typing", members=[{"k": "b", "v": True}, {"k": "s", "v": "a"}, {"k": "i", "v": 1}]), {"k": "str", "v": "a"}),
+        _p("e", _x("optUnion", "pep604", members=["str", "int"]), {"k": "none"})]},
+    {"name": "Config", "doc": "Summary.", "returns": None, "params": [
+        _p("a", _x("optional", "pep604", s="int")), _p("b", _x("optional", "pep604", s="bool"), {"k": "bool", "v": False}),
+        _p("c", _x("optLiteral", "pep604", members=[{"k": "s", "v": "x"}, {"k": "s", "v": "y"}]), {"k": "str", "v": "x"}),
+        _p("d", _x("annotated", "dotted-typing", s="str", note="x"), {"k": "str", "v": "say \"hi\" twice"})]},
+    # witnesses of the findings about spellings the argparse type resolution does not understand (re-verified on every run)
+    {"name": "Config", "doc": "Summary.", "returns": None, "params": [_p("a", _x("optional", "pep604", s="int"))]},
+    {"name": "Config", "doc": "Summary.", "returns": None, "params": [
+        _p("a", _x("optional", "dotted-typing", s="int")), _p("b", _x("list", "dotted-t", s="int")), _p("c", _x("optList", "pep604", s="str"), {"k": "none"}),
+        _p("d", _x("literal", "typing", members=[{"k": "s", "v": "beta"}, {"k": "b", "v": True}]), {"k": "bool", "v": True}),
+        _p("e", _x("optUnion", "typing", members=["bool", "int"])),
+        _p("f", _x("optLiteral", "typing", members=[{"k": "b", "v": False}, {"k": "s", "v": "alpha"}, {"k": "i", "v": 1}]), {"k": "bool", "v": False})]},
+    {"name": "Config", "doc": "Summary.", "returns": None, "params": [
+        _p("a", _x("scalar", "fwdref", s="int")), _p("b", _x("optional", "fwdref", s="float")), _p("c", _x("list", "fwdref", s="int")),
+        _p("d", _x("literal", "fwdref", members=[{"k": "i", "v": 10}, {"k": "i", "v": 7}]))]},
 ]
 
 
